@@ -62,10 +62,13 @@ type stateDef struct {
 	n     uint32
 	time  func(h uint32) uint32 // nil: GenesisTime + 600h
 	coins bool
+	net   int // 0 main rules, 3 / 4: testnet3 / testnet4 difficulty exceptions
 }
 
 func buildState(d stateDef) (*chainx.Prefix, string) {
-	return chainx.TryBuildPrefix("c05-"+d.name, minichain.Opts{Params: params}, d.n, func(h uint32, s *minichain.Spec, p *chainx.Prefix) {
+	pp := params
+	pp.Net = d.net
+	return chainx.TryBuildPrefix("c05-"+d.name, minichain.Opts{Params: pp}, d.n, func(h uint32, s *minichain.Spec, p *chainx.Prefix) {
 		if d.time != nil {
 			s.Time = d.time(h)
 		}
@@ -178,6 +181,24 @@ func variants() []variant {
 			minichain.Mine(b)
 			return b
 		}})
+	// a block stamped more than 20 minutes after its parent: on the test networks it has to carry the
+	// limit unless it is at a retarget boundary, elsewhere its timestamp changes nothing (the reference
+	// decides; no expectation is attached to these two)
+	for i, nm := range []string{"late-block-with-pow-limit-bits", "late-block-with-on-time-bits"} {
+		i := i
+		vs = append(vs, variant{name: nm,
+			need: func(c *ctx) bool { return c.req != minichain.PowBits && c.parent.Time+1201 > c.mtp },
+			build: func(c *ctx) *reftx.Block {
+				s := c.spec(byte(92 + i))
+				s.Time = c.parent.Time + 1201
+				b := minichain.Build(s)
+				if i == 0 {
+					b.Bits = minichain.PowBits
+				}
+				minichain.Mine(b)
+				return b
+			}})
+	}
 	// ---- time ----
 	setTime := func(name string, bad bool, f func(c *ctx) uint32) {
 		t := tag()
@@ -565,7 +586,8 @@ func runJob(p *chainx.Prefix, stName string, vs []variant, seq []int, side, hf b
 				}
 				par = par.Parent
 			}
-			c := &ctx{p: p, parent: par, height: par.Height + 1, req: refchain.RequiredBits(par, minichain.PowBits), mtp: refchain.MTP(par)}
+			c := &ctx{p: p, parent: par, height: par.Height + 1, mtp: refchain.MTP(par)}
+			c.req = refchain.RequiredBitsNet(par, minichain.PowBits, p.Params.Net, c.spec(0).Time)
 			c.flags = params.FlagsAt(c.height)
 			if v.need != nil && !v.need(c) {
 				return
@@ -709,10 +731,38 @@ func main() {
 			return base + 600*2015 + (h - 2016) // always above the median of the last 11
 		}
 	}})
+	// the test networks' difficulty exceptions: a fast first period (the retarget quadruples the
+	// difficulty), then - at 2015 the boundary itself; at 2018 a tip that used the 20-minute exception;
+	// at 2019 an on-time block after it (its bits come from walking back past the exception)
+	fast := func(h uint32) uint32 {
+		t := uint32(minichain.GenesisTime) + 150*h
+		if h >= 2018 {
+			t += 1300
+		}
+		return t
+	}
+	for _, net := range []int{3, 4} {
+		for _, n := range []uint32{2015, 2018, 2019} {
+			defs = append(defs, stateDef{name: fmt.Sprintf("testnet%d-fast-period-h%d", net, n), n: n, time: fast, net: net})
+		}
+	}
+	if r.Thorough() {
+		// the last block of the SECOND period uses the exception: testnet3 retargets from its bits (the
+		// limit), testnet4 from the last block that did not use it
+		for _, net := range []int{3, 4} {
+			defs = append(defs, stateDef{name: fmt.Sprintf("testnet%d-exception-on-last-block-of-period", net), n: 4031, net: net, time: func(h uint32) uint32 {
+				t := uint32(minichain.GenesisTime) + 150*h
+				if h >= 4031 {
+					t += 1300
+				}
+				return t
+			}})
+		}
+	}
 	if only := os.Getenv("C05_ONLY"); only != "" {
 		var l []stateDef
 		for _, d := range defs {
-			if d.name == only {
+			if strings.Contains(d.name, only) {
 				l = append(l, d)
 			}
 		}
